@@ -25,9 +25,36 @@ theorem good_init : Good init := by
 
 /-- one step preserves the invariant, provided stale Release calls carry the IsActive guard. -/
 theorem good_step (s s' : S) (a : Act) (h : Good s) (hg : guardedAct a = true) (hs : step s a = some s') : Good s' := by
-  obtain ⟨loc, st, gen, pc, cbGen, registered, inBatch, pending, pollerHolds, staleHolds, bad, fdOpen⟩ := s
+  obtain ⟨loc, st, gen, pc, cbGen, registered, inBatch, pending, pollerHolds, staleHolds, bad, fdOpen, hupq⟩ := s
   cases a <;> simp only [step, guardedAct] at hs hg <;> (repeat' split at hs) <;> (try cases hs) <;>
     (try (simp only [Good] at *; grind))
+
+/-- every undelivered hang-up names an owner the slot really had -/
+def QOk (s : S) : Prop := ∀ g ∈ s.hupq, g ≤ s.gen
+
+theorem qok_init : QOk init := by simp [QOk, init]
+
+theorem qok_step (s s' : S) (a : Act) (h : QOk s) (hs : step s a = some s') : QOk s' := by
+  obtain ⟨loc, st, gen, pc, cbGen, registered, inBatch, pending, pollerHolds, staleHolds, bad, fdOpen, hupq⟩ := s
+  simp only [QOk] at h
+  cases a <;> simp only [step] at hs <;> (repeat' split at hs) <;> (try cases hs) <;> simp only [QOk] <;> intro g hg
+  all_goals first
+    | exact h g hg
+    | exact Nat.le_succ_of_le (h g hg)
+    | (rcases List.mem_append.1 hg with hg | hg
+       · exact h g hg
+       · simp at hg; omega)
+    | exact h g (List.mem_of_mem_erase hg)
+
+theorem qok_run (acts : List Act) (s0 s : S) (h0 : QOk s0) (hrun : run s0 acts = some s) : QOk s := by
+  induction acts generalizing s0 with
+  | nil => simp [run] at hrun; subst hrun; exact h0
+  | cons a rest ih =>
+    simp only [run] at hrun
+    split at hrun
+    · simp at hrun
+    · rename_i s1 h1
+      exact ih s1 (qok_step s0 s1 a h0 h1) hrun
 
 theorem good_run (acts : List Act) (s0 s : S) (h0 : Good s0) (hall : acts.all guardedAct = true)
     (hrun : run s0 acts = some s) : Good s := by
